@@ -336,6 +336,9 @@ def cursor_rules(ctx: Ctx, rule: str):
 
 
 def run_extra(ctx: Ctx):
+    # ---------------------------------------------------------------- R07.12 an inherited edge points at the real predecessor (= C04 R04.15)
+    from .c04 import inherited_edges_keep_identity_rule
+    inherited_edges_keep_identity_rule(ctx, "R07.12")
     # ---------------------------------------------------------------- R07.11 the list schedule places a task after ALL its predecessors, own and inherited (= C04 R04.1)
     from .c04 import edge_set_rule
     edge_set_rule(ctx, "R07.11")
